@@ -256,6 +256,28 @@ Proof.
   unfold step. rewrite Hal, El. discriminate.
 Qed.
 
+(* with the retry, the accept_failed hypothesis of the three theorems above is
+   discharged: descriptor exhaustion at accept time does not stop the server *)
+Theorem c07_accepting_despite_accept_errors cfg s :
+  accept_retry cfg = true -> ready_on_error cfg = false -> reachable cfg s -> alive s = true ->
+  ready s = true -> stops s = [] ->
+  step cfg s EConnect <> None /\ in_loop (run s) = true /\ lst s = Listening.
+Proof.
+  intros Har Hroe Hr Hal Hrd Hst. pose proof (accept_never_fails cfg s Har Hr) as Haf.
+  destruct (c17_ready_means_listening cfg s Hroe Hr Hrd Hst Haf) as (El & Hl & _).
+  split; [apply c17_connect_succeeds; assumption|]. split; assumption.
+Qed.
+
+(* the transition itself: an Accept error sends Run round the loop with the same
+   connection id and the wait group restored *)
+Theorem c07_accept_error_step cfg s :
+  accept_retry cfg = true -> run s = RAcceptWait -> lst s = Listening -> accept_err s = true ->
+  exists s', run_step cfg s = Some s' /\ run s' = RTop /\ nextid s' = pred (nextid s) /\ conns s' = conns s /\
+             accept_err s' = false /\ accept_failed s' = accept_failed s /\ ready s' = ready s /\ lst s' = Listening.
+Proof.
+  intros Har Er El Ee. unfold run_step. rewrite Er, El, Ee, Har. eexists. split; [reflexivity|]. cbn. repeat split; auto.
+Qed.
+
 Lemma c17_pinned_refuted :
   exists s, run_labels pinned_cfg init [ECallRun true false; LRun] = Some s /\ run s = RRet true /\ ready s = true.
 Proof. eexists. split; [vm_compute; reflexivity|]. split; reflexivity. Qed.
